@@ -208,3 +208,23 @@ MUTANTS += [
      "edits": [(MS, "    async def retry(self, next_retry: timedelta | None = None) -> None:\n        if self._category != MessageCategory.NORMAL:\n            raise ValueError(f\"Can not retry message with category {self._category}.\")\n\n        if self.__read_only:\n            raise ValueError(\"Message is read only.\")\n\n        if self.parameters.retries.already_tried >= self.parameters.retries.max_amount:\n            raise ValueError(\"Max retry limit reached.\")\n\n        await self._connection.message_broker.requeue(\n            self._key,\n            self.raw_payload,\n            self.parameters._prepare_retry(\n                next_retry=timedelta(seconds=0) if next_retry is None else next_retry,",
                     "    async def retry(self, next_retry: timedelta | None = None) -> None:\n        if self._category != MessageCategory.NORMAL:\n            raise ValueError(f\"Can not retry message with category {self._category}.\")\n\n        if self.__read_only:\n            raise ValueError(\"Message is read only.\")\n\n        if self.parameters.retries.already_tried >= self.parameters.retries.max_amount:\n            raise ValueError(\"Max retry limit reached.\")\n\n        await self._connection.message_broker.requeue(\n            self._key,\n            self.raw_payload,\n            self.parameters._prepare_retry(\n                next_retry=timedelta(seconds=1) if next_retry is None else next_retry,")]},
 ]
+MW = "repid/middlewares/wrapper.py"
+MM = "repid/middlewares/middleware.py"
+MUTANTS += [
+    {"name": "c17-after-signal-in-finally", "checks": ["C17"],
+     "edits": [(MW, "        result = await create_task(self.call_set_context(*args, **kwargs))\n        # whatever the function returns can be seen as `result` kwarg in `after` signal\n        signal_kwargs.update({\"result\": result})\n\n        # emit `after` signal\n        await self._repid_signal_emitter(f\"after_{self.name}\", signal_kwargs)\n\n        return result",
+                    "        result = None\n        try:\n            result = await create_task(self.call_set_context(*args, **kwargs))\n        finally:\n            signal_kwargs.update({\"result\": result})\n            await self._repid_signal_emitter(f\"after_{self.name}\", signal_kwargs)\n\n        return result")]},
+    {"name": "c17-inside-flag-not-set", "checks": ["C17"],
+     "edits": [(MW, "        IsInsideMiddleware.set(True)  # noqa: FBT003\n", "")]},
+    {"name": "c17-subscriber-exception-propagates", "checks": ["C17"],
+     "edits": [(MM, "            except Exception:  # noqa: BLE001\n                logger.exception(\n                    \"Subscriber '{fn_name}' ({fn}) raised an exception.\",\n                    extra=logger_extra,\n                )", "            except Exception:  # noqa: BLE001\n                raise")]},
+    {"name": "c17-positional-args-misnamed", "checks": ["C17"],
+     "edits": [(MW, "        signal_kwargs.update(zip(self.parameters, args))", "        signal_kwargs.update(zip(list(self.parameters)[1:], args))")]},
+    {"name": "c17-before-signal-after-call", "checks": ["C17"],
+     "edits": [(MW, "        # emit `before` signal\n        await self._repid_signal_emitter(f\"before_{self.name}\", signal_kwargs)\n\n        # run function inside of a separate context created by `asyncio.create_task()`\n        # inside of this context IsInsideMiddleware variable will be set to True\n        result = await create_task(self.call_set_context(*args, **kwargs))",
+                    "        # run function inside of a separate context created by `asyncio.create_task()`\n        # inside of this context IsInsideMiddleware variable will be set to True\n        result = await create_task(self.call_set_context(*args, **kwargs))\n        await self._repid_signal_emitter(f\"before_{self.name}\", signal_kwargs)")]},
+    {"name": "c17-actor-run-wrapper-shared", "checks": ["C17"],
+     "edits": [(P, "        self.actor_run = middleware_wrapper(self._actor_run, name=\"actor_run\")\n", "        cls = type(self)\n        if not hasattr(cls, '_shared'):\n            cls._shared = middleware_wrapper(self._actor_run, name=\"actor_run\")\n        self.actor_run = cls._shared\n")]},
+    {"name": "c17-after-signal-without-result", "checks": ["C17"],
+     "edits": [(MW, "        signal_kwargs.update({\"result\": result})\n", "")]},
+]
